@@ -214,7 +214,7 @@ Q_CONC = ("concurrent histories (2-8 producers on own clones or one shared handl
           "for sequential runs, (capacity, #producers, producer-id trigram in delivery order) for concurrent runs, (window, capacity, counter triple) for forced windows")
 
 
-def q_jobs(bindir, prop, tier, seed, seq_enum=True, caps="unbounded,1,2,3", drop_matrix=False, outcomes=None, focus="mixed", windows=True, seq_random=True, conc=True):
+def q_jobs(bindir, prop, tier, seed, seq_enum=True, caps="unbounded,1,2,3", drop_matrix=False, outcomes=None, focus="mixed", windows=True, seq_random=True, conc=True, miri=False):
     quick = tier == QUICK
     jobs = []
     base = ["--property", prop]
@@ -231,6 +231,13 @@ def q_jobs(bindir, prop, tier, seed, seq_enum=True, caps="unbounded,1,2,3", drop
         jobs += shards(bindir, "queue_conc", prop + "-conc", seed, NCPU, base + ["--mode", "conc", "--focus", focus, "--cases", "10" if quick else "1200"], 3400)
     if windows:
         jobs += shards(bindir, "queue_conc", prop + "-windows", seed, 2 if quick else 8, base + ["--mode", "windows", "--cases", "2" if quick else "200"], 3400)
+    # Miri: compact histories under a random preemptive scheduler, hooks off; virtual-time quiescence
+    if miri:
+        if quick:
+            jobs.append(miri_job(prop + "-miri-queue", prop, "miri_queue", ["a"], 8, seed, 1500, fail_marker="QUEUE-ORACLE-FAILED"))
+        else:
+            for k, st in enumerate(["a", "b", "c"]):
+                jobs.append(miri_job(prop + "-miri-queue-" + st, prop, "miri_queue", [st], 64, seed + 31 * k, 7200, fail_marker="QUEUE-ORACLE-FAILED"))
     return jobs
 
 
@@ -277,12 +284,12 @@ meta("C16", level="fault_enumeration",
 
 @plan("C08")
 def _c08(bindir, tier, seed):
-    return q_jobs(bindir, "C08", tier, seed)
+    return q_jobs(bindir, "C08", tier, seed, miri=True)
 
 
 @plan("C09")
 def _c09(bindir, tier, seed):
-    return q_jobs(bindir, "C09", tier, seed, caps="unbounded,0,1,2", drop_matrix=True, focus="drop")
+    return q_jobs(bindir, "C09", tier, seed, caps="unbounded,0,1,2", drop_matrix=True, focus="drop", miri=True)
 
 
 @plan("C10")
@@ -292,12 +299,12 @@ def _c10(bindir, tier, seed):
 
 @plan("C11")
 def _c11(bindir, tier, seed):
-    return q_jobs(bindir, "C11", tier, seed, seq_enum=False, outcomes=("oep", 6, 9), focus="panic", windows=False)
+    return q_jobs(bindir, "C11", tier, seed, seq_enum=False, outcomes=("oep", 6, 9), focus="panic", windows=False, miri=(tier != QUICK))
 
 
 @plan("C15")
 def _c15(bindir, tier, seed):
-    return q_jobs(bindir, "C15", tier, seed)
+    return q_jobs(bindir, "C15", tier, seed, miri=(tier != QUICK))
 
 
 @plan("C16")
@@ -345,7 +352,19 @@ def miri_job(name, prop, binname, prog_args, seeds, seed, timeout, extra_flags="
                           "replay_args": [], "trace": {"miri_output_tail": out[-3000:], "MIRIFLAGS": flags}})
         elif fail_marker in out:
             line = [l for l in out.splitlines() if fail_marker in l][0]
-            viols.append({"property": prop, "rule": "value-oracle", "class": "oracle-failed-under-miri", "detail": line[:400], "replay_args": [], "trace": {"MIRIFLAGS": flags}})
+            # the queue program names what failed; map it to the property it belongs to
+            targets = [prop]
+            cls = "oracle-failed-under-miri"
+            if binname == "miri_queue":
+                table = [("phase=delivery", ["C08"], "accepted-never-delivered"), ("phase=release", ["C09"], "worker-or-sink-not-released"), ("counters at rest", ["C15"], "final-counters"),
+                         ("overlapped", ["C08"], "overlapping-sink-calls"), ("producer ", ["C08", "C11"], "out-of-order"), ("handler calls", ["C16"], "handler-count"),
+                         ("surfaced", ["C10"], "wrapped-error-surfaced"), ("emit returned Ok(", ["C10"], "return-count"), ("accepted,", ["C08", "C11"], "accepted-never-delivered")]
+                for key, props, c in table:
+                    if key in line:
+                        targets, cls = props, c
+                        break
+            for t in targets:
+                viols.append({"property": t, "rule": "miri-history-oracle", "class": cls, "detail": "under Miri (random preemptive scheduler): " + line[:400], "replay_args": [], "trace": {"MIRIFLAGS": flags}})
         rep = {"evaluations": len(oks), "distinct": ["miri-%s-%s" % (binname, l.split(" ok ", 1)[-1]) for l in oks], "distinct_count": len(set(oks)), "trivial": 0,
                "samples": [{"miri": binname, "flags": flags, "program_output": l} for l in oks[:2]], "violations": viols, "violation_count": len(viols),
                "obs": {"miri_seeds_completed": len(oks)}, "notes": [], "inconclusive": []}
